@@ -295,6 +295,36 @@ def lfp(rules, preds, chosen):
     return true
 
 
+def valid_program(P):
+    """Range restriction (every head variable and every variable of a negative literal occurs in a positive body
+    literal) and every called/queried predicate has a clause: the conditions the generator guarantees."""
+    defined = set()
+    for s in P["stmts"]:
+        if s[0] in ("pf", "fact"):
+            heads, body = [s[-1]], []
+        elif s[0] == "rule":
+            heads, body = [s[1]], s[2]
+        elif s[0] == "prule":
+            heads, body = [s[2]], s[3]
+        else:
+            heads, body = [h for _, h in s[1]], s[2]
+        defined.update(h[0] for h in heads)
+        bound = {x for t, (p, args) in body if t == "pos" for x in args if x in VARSET}
+        for h in heads:
+            if any(x in VARSET and x not in bound for x in h[1]):
+                return False
+        for t, (p, args) in body:
+            if t == "neg" and any(x in VARSET and x not in bound for x in args):
+                return False
+    called = set()
+    for s in P["stmts"]:
+        body = s[2] if s[0] in ("rule", "ad") else (s[3] if s[0] == "prule" else [])
+        called.update(a[0] for t, a in body)
+    called.update(q[0] for q in P["queries"])
+    called.update(a[0] for a, v in P["evidence"])
+    return called <= defined
+
+
 def f1_condition(P):
     """Structural condition of known finding F1 (false NegativeCycle): some ground rule whose head lies on a cycle of
     the dependency graph negates an atom that depends on an atom lying on a cycle."""
